@@ -59,7 +59,13 @@ theorem setMarkedBlock_P (hP : Closed P) (s : St) (h prio : Nat) (hs : P s.g) : 
 theorem commit_P (hP : Closed P) (s : St) (h : Nat) (hs : P s.g) : P (commit s h).g := by
   unfold commit; split
   · exact hs
-  · exact post_P hP _ _ rfl hs
+  · split
+    · exact hs
+    · simp only
+      split_ifs
+      all_goals first
+        | exact hs
+        | exact post_P hP _ _ rfl hs
 
 theorem judgeCert_P (hP : Closed P) (s : St) (count q h prio vt : Nat) (hs : P s.g) :
     P (judgeCert s count q h prio vt).g := by
